@@ -169,12 +169,15 @@ def _distribute(rng, np, N, part, cells, geoms):
 
 def gen_gathermeshb(rng, tier, np):
     ops = []
-    n = 36 if tier == 'quick' else 200
+    n = 48 if tier == 'quick' else 240
     for _ in range(n):
         twod, N, part, xyz, cells, geoms = _global_mesh(rng, np, tier)
         world = _distribute(rng, np, N, part, cells, geoms)
         own_twice = None
-        if rng.random() < 0.08:                                # a vertex nobody owns / owned twice: the failure branch
+        twin = np == 1 and rng.random() < 0.6                 # the same grid through the serial writer as well
+        if twin:
+            world = [(sorted(world[0][0]), world[0][1], world[0][2])]   # local index = global id
+        if not twin and rng.random() < 0.08:                                # a vertex nobody owns / owned twice: the failure branch
             g = rng.randrange(N)
             if np == 1 or rng.random() < 0.5:
                 part = list(part)
@@ -191,6 +194,8 @@ def gen_gathermeshb(rng, tier, np):
             rbl = 32 * rng.randint(1, max(1, N // 3))
         else:
             rbl = rng.choice([0, -1, 1000000, 33, 64, 95, 16])
+        if twin and 0 < rbl < 32:
+            rbl = 32
         mv = rng.choice([0, 1, 2, 2, 3, 3, 4, 4])
         cads = []
         for q in range(np):
@@ -220,6 +225,8 @@ def gen_gathermeshb(rng, tier, np):
                 w += [str(t), str(nd), str(gid), str(gref), dhex(p0), dhex(p1)]
             w.append(cads[q])
         ops.append(' '.join(w))
+        if twin:
+            ops.append(' '.join(['export_meshb'] + w[1:]))
     return ops
 
 
@@ -398,6 +405,12 @@ def oracle_gathermeshb(ops, impl):
     bad = []
     for i, (o, r) in enumerate(zip(ops, impl)):
         if r.startswith('bad-op') or r == 'hang':
+            continue
+        if o.startswith('export_meshb ') and i > 0 and ops[i - 1].split()[1:] == o.split()[1:] and \
+                impl[i - 1].startswith('ok ') and r != impl[i - 1]:
+            bad.append((i, 'C08 serial writer (ref_export_by_extension) and parallel writer (ref_gather_by_extension) produce '
+                           'different files for the same one-rank grid: %s' %
+                        ('%d vs %d bytes' % ((len(r) - 3) // 2, (len(impl[i - 1]) - 3) // 2) if r.startswith('ok ') else r)))
             continue
         try:
             t = _truth(o)
